@@ -40,6 +40,13 @@ def cases(chk):
         out.append((n, list(range(n)), "plain"))
     for n in ([37, 100] if quick else [100, 257, 600, 1024]):
         out.append((n, sorted(rng.sample(range(n), 3 if quick else 8)), "plain"))
+    # more than 128 leaves: merkle paths of 8 and more nodes (control blocks beyond 289 bytes)
+    out.append((129, [0, 126, 127, 128], "plain"))
+    out.append((200, sorted(rng.sample(range(200), 3)), "plain"))
+    # sibling leaf hashes that agree on their leading bytes, a zero byte among them, in both orders (ordering of children must compare all 32 bytes)
+    out.append((2, [0, 1], "nul-prefix-desc"))
+    out.append((2, [0, 1], "nul-prefix-asc"))
+    out.append((5, [2, 3], "nul-prefix-mid"))
     out.append((3, [0, 1, 2], "equal-scripts"))
     out.append((4, [0, 3], "long-scripts"))
     out.append((2, [0, 1], "sorted-either-way"))
@@ -61,6 +68,24 @@ def run(chk):
         if kind == "equal-scripts":
             leafsecs = [leafsecs[0]] * n
         scripts = [push(btc.xonly_pubkey(s)[0]) + O("CHECKSIG") for s in leafsecs]
+        if kind.startswith("nul-prefix"):
+            # grind two signature-checking leaves whose TapLeaf hashes both start with 00 (1 in 256 each)
+            found = []
+            ctr = 0
+            while len(found) < 2:
+                ctr += 1
+                cand = push(ctr.to_bytes(3, "big")) + O("DROP") + push(btc.xonly_pubkey(leafsecs[len(found)])[0]) + O("CHECKSIG")
+                if btc.tapleaf_hash(cand)[0] == 0:
+                    found.append(cand)
+            found.sort(key=btc.tapleaf_hash, reverse=not kind.endswith("asc"))
+            pos = 2 if kind.endswith("mid") else 0
+            if kind.endswith("mid"):
+                leafsecs[2], leafsecs[3] = leafsecs[0], leafsecs[1]
+            # the secret of each ground leaf must stay with its script: recompute by key
+            keys = [btc.xonly_pubkey(sk)[0] for sk in leafsecs]
+            for j, sc in enumerate(found):
+                scripts[pos + j] = sc
+                leafsecs[pos + j] = [sk for sk in leafsecs if btc.xonly_pubkey(sk)[0] in sc][0]
         if kind == "long-scripts":
             scripts[0] = O("NOP") * 251 + b"\x51"; scripts[1] = O("NOP") * 252 + b"\x51"; scripts[3] = O("NOP") * 599 + b"\x51"
         # address prefixes: the usual ones and others with the characters bech32 permits in a prefix (digits, punctuation)
